@@ -30,6 +30,7 @@ func C18(r *core.Run) {
 	reflectionGuards(r)
 	recursionGuards(r)
 	accumulatorThreading(r, "lib/j5schema", "lib/j5reflect")
+	rules.AppendAlias(r, []string{"lib/j5schema", "lib/j5reflect"}) // a recorded proto path is not overwritten by a sibling's
 	nestedSkipsMapEntries(r, "lib/j5schema", "lib/j5reflect", "internal/structure")
 	rules.NonNilFields(r, "lib/j5schema")
 	// every proto kind the reflector accepts is dispatched somewhere; the rest reach the error default
